@@ -177,6 +177,9 @@ type specScenario struct {
 	noQueue  bool
 	base     string
 	akeN     int
+	// a scenario appended after the profile's random part (its additional ops are not in older traces)
+	appended bool
+	lastEvs  []string // the events of the most recent data message delivery
 }
 
 var specKeysDeclared bool
@@ -707,6 +710,7 @@ func (s *specScenario) deliverData(to *specParty, f *specFlight, expectReject st
 	old, _ := otr3.VerifOldMACKeys(f.whole)
 	rb := len(to.rnd.history)
 	plain, toSend, err, evs := s.receiveAll(to, f)
+	s.lastEvs = evs
 	if s.dead {
 		return false
 	}
@@ -1187,6 +1191,15 @@ type refMsg struct {
 	tlvs  []specTLV
 }
 
+func (m *refMsg) has(typ uint16) bool {
+	for _, t := range m.tlvs {
+		if t.typ == typ {
+			return true
+		}
+	}
+	return false
+}
+
 func (g *gen) refMessage(kind string, ver int) refMsg {
 	text := g.specText()
 	m := refMsg{kind: kind, frag: "0"}
@@ -1250,6 +1263,60 @@ func (g *gen) refMessage(kind string, ver int) refMsg {
 		case "fragments-short-tags":
 			m.frag += "x" // "?OTR|%x|%x,%hu,%hu,%s,": the format string of the document to the letter
 		}
+	// --- TLV records of types this library does not know ("private extensions" of another client, to
+	// be ignored) IN FRONT OF and BETWEEN records it knows: every known record must still be acted upon
+	case "unknown-then-disconnect", "unknown-then-extra-key", "unknown-then-smp-abort", "unknown-between-known":
+		unk := func() {
+			t := uint16(9 + g.r.Intn(65527))
+			switch g.r.Intn(4) {
+			case 0:
+				t = 9 // the first type without a meaning
+			case 1:
+				t = 0x0100
+			case 2:
+				t = 0xffff
+			}
+			add(t, g.bytesN([]int{0, 3, g.r.Intn(40), g.r.Intn(300)}[g.r.Intn(4)]))
+		}
+		unks := func() {
+			for i, n := 0, 1+g.r.Intn(3); i < n; i++ {
+				unk()
+			}
+		}
+		xkey := func() {
+			add(8, append([]byte{byte(g.r.Intn(256)), byte(g.r.Intn(256)), byte(g.r.Intn(256)), byte(g.r.Intn(256))}, g.bytesN(g.r.Intn(12))...))
+		}
+		if g.r.Intn(2) == 0 {
+			m.text = text
+		}
+		if g.r.Intn(3) == 0 {
+			add(0, g.bytesN(g.r.Intn(8)))
+		}
+		unks()
+		switch kind {
+		case "unknown-then-disconnect":
+			add(1, []byte{})
+		case "unknown-then-extra-key":
+			xkey()
+			if g.r.Intn(2) == 0 {
+				unks()
+			}
+		case "unknown-then-smp-abort":
+			add(6, []byte{})
+			if g.r.Intn(2) == 0 {
+				unks()
+			}
+		case "unknown-between-known":
+			xkey()
+			unks()
+			add(6, []byte{})
+			unks()
+			add(1, []byte{})
+		}
+		if g.r.Intn(3) == 0 {
+			add(0, g.bytesN(g.r.Intn(8)))
+		}
+		build(true)
 	case "disconnect":
 		add(1, []byte{})
 		build(true)
@@ -1307,6 +1374,11 @@ func (s *specScenario) direction2(from, to *specParty, withDisconnect bool) {
 	if withDisconnect {
 		kinds = append(kinds, []string{"disconnect", "disconnect-with-text"}[g.r.Intn(2)])
 	}
+	s.direction2Kinds(from, to, kinds)
+}
+
+func (s *specScenario) direction2Kinds(from, to *specParty, kinds []string) {
+	g := s.g
 	// the messages are sent by a copy of `from`'s reference state: the real `from` sends none of them,
 	// and its reference twin must stay in step with it
 	twin := from.id + "~"
@@ -1368,7 +1440,7 @@ func (s *specScenario) direction2(from, to *specParty, withDisconnect bool) {
 			// long after the addressee last sent anything: a heartbeat would be due
 			otr3.VerifShiftClock(to.c, 90*time.Second)
 		}
-		if m.kind == "smp-abort-empty" && otr3.VerifSnapshot(to.c).SmpState <= 1 {
+		if m.has(6) && otr3.VerifSnapshot(to.c).SmpState <= 1 {
 			// an abort is only interesting while something is there to abort: the addressee has a run of
 			// its own under way (its request is never delivered)
 			s.call(to, nil, func() ([]otr3.ValidMessage, error) { return to.c.StartAuthenticate("", []byte("never answered")) })
@@ -1381,8 +1453,26 @@ func (s *specScenario) direction2(from, to *specParty, withDisconnect bool) {
 		if s.dead {
 			return
 		}
-		switch m.kind {
-		case "disconnect", "disconnect-with-text":
+		// every TLV of a type the library knows has been acted upon, whatever stands between them: an
+		// extra symmetric key TLV (type 8, at least the four bytes of the use) is announced to the application
+		var wantKeys, gotKeys []string
+		for _, t := range m.tlvs {
+			if t.typ == 8 && len(t.val) >= 4 {
+				wantKeys = append(wantKeys, fmt.Sprintf("%d:%s", uint32(t.val[0])<<24|uint32(t.val[1])<<16|uint32(t.val[2])<<8|uint32(t.val[3]), hx(t.val[4:])))
+			}
+		}
+		for _, e := range s.lastEvs {
+			if parts := strings.SplitN(e, ":", 4); len(parts) == 4 && parts[0] == "key" {
+				gotKeys = append(gotKeys, parts[1]+":"+parts[2])
+			}
+		}
+		if len(wantKeys) > 0 {
+			olog.ok("C10")
+			if strings.Join(wantKeys, ",") != strings.Join(gotKeys, ",") {
+				specViol("tlv-not-acted-upon", describe(fmt.Sprintf("the message carries extra symmetric key TLVs (type 8) with use:data %v, the application was told of %v", wantKeys, gotKeys)))
+			}
+		}
+		if m.has(1) {
 			if st := otr3.VerifSnapshot(to.c).MsgState; st != 2 {
 				specViol(key, describe(fmt.Sprintf("message state %d after a type 1 TLV", st)))
 			}
@@ -1395,9 +1485,18 @@ func (s *specScenario) direction2(from, to *specParty, withDisconnect bool) {
 			if guard(func() string { out, serr = to.c.Send(otr3.ValidMessage(said)); return "" }) == "PANIC" {
 				olog.viol("C13", "send-panics", describe("Send after the peer's disconnect panicked"))
 			} else if serr == nil || len(out) > 0 {
-				olog.viol("C03", "send-after-peer-disconnect", describe(fmt.Sprintf("after the peer's disconnect message Send returns err=%v and %d message(s): the text leaves the machine although the conversation has ended", serr, len(out))))
+				olog.viol("C03", "send-after-peer-disconnect", describe(fmt.Sprintf("after the peer's disconnect message (TLV type 1) IsEncrypted() = %v and Send(%q) returns err=%v and %d message(s): the text leaves the machine although the conversation has ended", to.c.IsEncrypted(), said, serr, len(out))))
 			}
-		case "smp-abort-empty":
+			if s.appended {
+				// the reference's copy of the addressee is asked to send too: it has finished and refuses
+				res := fmt.Sprintf("sent err=%v messages=%d", serr, len(out))
+				if serr != nil && len(out) == 0 {
+					res = "error not-encrypted"
+				}
+				s.emit(fmt.Sprintf("spec.send %s 0 %s auto 0", to.id, hx(append(append([]byte{}, said...), 0))), res)
+			}
+		}
+		if m.has(6) {
 			olog.ok("C12")
 			if st := otr3.VerifSnapshot(to.c).SmpState; st > 1 {
 				specViol(key, describe(fmt.Sprintf("SMP state %d -> %d after an SMP abort", smpBefore, st)))
@@ -1727,6 +1826,64 @@ func (g *gen) specScenario(idx int) {
 	}
 }
 
+// ---------- appended scenarios: unknown TLV types in front of and between known ones ----------
+//
+// A data message may carry TLV records of types the addressee has never heard of (another client's
+// extension); they are skipped, and every record behind them counts as if they were not there.  The
+// reference builds such messages for a short real session: an extra symmetric key request, an SMP abort
+// (while a run of the addressee is under way) and - last - the peer's goodbye (type 1), each behind one
+// or more unknown records.  After the goodbye the conversation has ended: Send must refuse (C03).
+func (g *gen) specUnknownTLVScenario(idx int) {
+	s := &specScenario{g: g, base: fmt.Sprintf("u%d", idx), deliv: map[*specParty][]*specFlight{}, appended: true}
+	ver := 2 + idx%2 // both versions in every run
+	pol := func() int {
+		if ver == 2 {
+			return 2
+		}
+		return []int{4, 6}[g.r.Intn(2)]
+	}
+	frag := func() int {
+		if g.r.Intn(3) == 0 {
+			return 80 + g.r.Intn(400)
+		}
+		return 0
+	}
+	kP := g.r.Intn(len(testKeysHex))
+	kQ := (kP + 1 + g.r.Intn(len(testKeysHex)-1)) % len(testKeysHex)
+	s.a = specNewParty(g, s.base+"a", pol(), kP, frag())
+	s.b = specNewParty(g, s.base+"b", pol(), kQ, frag())
+	g.dist["appended:unknown-tlv-session"]++
+	snap := otr3.VerifSnapshot(s.a.c)
+	marks := s.beginAKE()
+	s.emitted(s.a, []otr3.ValidMessage{s.a.c.QueryMessage()}, nil, snap)
+	if !s.runAKE(marks) || s.dead {
+		return
+	}
+	for i, n := 0, 2+g.r.Intn(8); i < n && !s.dead; i++ {
+		s.step()
+	}
+	s.drain()
+	if s.dead || specOtrm == "" || !s.a.c.IsEncrypted() || !s.b.c.IsEncrypted() {
+		return
+	}
+	s.noQueue = true
+	first, second := s.a, s.b
+	if g.r.Intn(2) == 0 {
+		first, second = s.b, s.a
+	}
+	// one way: the records that leave the conversation open
+	open := []string{"unknown-then-extra-key", "unknown-then-smp-abort", "unknown-tlv", "several-tlvs"}
+	g.r.Shuffle(len(open), func(i, j int) { open[i], open[j] = open[j], open[i] })
+	s.direction2Kinds(first, second, open[:2+g.r.Intn(3)])
+	if s.dead {
+		return
+	}
+	// the other way: some of them, then the goodbye behind unknown records
+	g.r.Shuffle(len(open), func(i, j int) { open[i], open[j] = open[j], open[i] })
+	last := []string{"unknown-then-disconnect", "unknown-then-disconnect", "unknown-between-known"}[g.r.Intn(3)]
+	s.direction2Kinds(second, first, append(append([]string{}, open[:g.r.Intn(3)]...), last))
+}
+
 func init() {
 	profiles["spec"] = func(seed int64, n int, out *emitter, extra map[string]interface{}) map[string]int {
 		g := &gen{r: rand.New(rand.NewSource(seed)), out: out, dist: map[string]int{}}
@@ -1758,6 +1915,10 @@ func init() {
 		// after the scenarios (their randomness is not shifted): the library's own signing routine
 		g.specShortSignatureExchange()
 		g.specSignatures()
+		// appended (after everything that was there before): unknown TLV types between known ones
+		for i, k := 0, 3+n/8; i < k; i++ {
+			g.specUnknownTLVScenario(i)
+		}
 		extra["panics"] = panicCount
 		extra["violation_counts"] = specViolCount
 		olog.export(extra)
